@@ -31,10 +31,14 @@ class Ctx:
         self.seed = int(os.environ.get('VERIF_SEED', '0') or 0)
 
     # ---- facts
-    def facts(self, cfgs, kinds=('lib', 'probe'), only=None, tests=None):
+    def facts(self, cfgs, kinds=('lib', 'probe'), only=None, tests=None, quick_tests=None):
         """`tests`: regex selecting units of the repository's own test suite; they are added (parsed only) in the
-        thorough tier, so that every rule also sees the template instantiations the real build produces."""
-        if self.tier != 'thorough' or os.environ.get('VERIF_NO_TESTS'):
+        thorough tier, so that every rule also sees the template instantiations the real build produces.
+        `quick_tests`: the (small) subset that is parsed in the quick tier as well — the test units of the property's
+        own area, whose instantiations (value types, policies, input mixes) the probes do not all reproduce."""
+        if self.tier != 'thorough':
+            tests = quick_tests
+        if os.environ.get('VERIF_NO_TESTS') or not os.path.isdir(os.path.join(self.root, 'test')):
             tests = None
         key = (tuple(cfgs), tuple(kinds), only, tests)
         if key not in self._fb_cache:
